@@ -129,7 +129,7 @@ Plan generate(uint64_t seed, const std::string& focus) {
         if (r.chance(0.2)) cc.connect_props.push_back(P(P_REQ_PROBLEM, (uint32_t)r.below(2)));
         for (auto& u : gen_user_props(r, 2)) cc.connect_props.push_back(u);
     }
-    if (r.chance(focus == "C10" ? 0.4 : 0.12)) { cc.use_authenticator = true; cc.auth_method = "m" + filler(r, 2); k.broker.auth_rounds = (int)r.below(3); }
+    if (r.chance(focus == "C10" ? 0.4 : 0.12)) { cc.use_authenticator = true; cc.auth_method = "m" + filler(r, 2); k.broker.auth_rounds = (int)r.below(3); cc.auth_posted = r.chance(0.5); }
 
     // ---------------------------------------------------------------- network
     auto& nk = k.net;
@@ -332,7 +332,9 @@ Plan generate(uint64_t seed, const std::string& focus) {
         case SK::FWriteErr: s.a = (int)r.below(3); s.b = (int)r.pick<int>({0, 0, 200, 500, 900, 1000, 1000}); s.c = (int)r.below(4); break;
         case SK::FConnect: s.a = (int)r.pick<int>({1, 1, 2, 3}); s.b = (int)r.pick<int>({1, 1, 2, 3, 6}); break;
         case SK::FResolve: s.a = (int)r.below(3); s.b = (int)r.pick<int>({1, 1, 2}); break;
-        case SK::FHandshake: s.a = (int)r.range(1, 6); s.b = 0; s.c = (int)r.pick<int>({1, 1, 2, 4}); break;
+        case SK::FHandshake: s.a = (int)r.range(1, 6); s.b = 0; s.c = (int)r.pick<int>({1, 1, 2, 4});
+            if (cc.use_authenticator && r.chance(0.35)) { s.a = 0; s.c = 1; s.d = 1 + (int)r.below(3); }   // the authenticator fails at one of its steps
+            break;
         case SK::FSessionPresent: s.a = (int)r.pick<int>({0, 0, 1}); s.b = (int)r.pick<int>({1, 1, 2}); break;
         case SK::FStall: s.t = r.pick<ns_t>({1 * MS, 100 * MS, 2 * SEC, 6 * SEC, 25 * SEC}); break;
         case SK::FClockJump: s.t = r.pick<ns_t>({-3600 * SEC, -30 * SEC, -1 * SEC, 1 * SEC, 19 * SEC, 30 * SEC, 3600 * SEC}); break;
